@@ -69,6 +69,14 @@ ReplyCodeTags(expCode, logCode) ==
          \cup (IF {expCode, logCode} = {"ok", "auth"} THEN T("C06", "conf.reply") \cup T("C07", "conf.reply") ELSE {})
          \cup (IF {expCode, logCode} \cap {"triggered", "expired", "unavailable"} = {} /\ {expCode, logCode} # {"ok", "auth"} THEN T("C07", "conf.reply") ELSE {})
 
+GrantedOfRaw(gr, u) == IF \E x \in gr : x[1] = u THEN (CHOOSE x \in gr : x[1] = u)[2] ELSE 0
+
+\* after a step that was reported for holding more than was granted, the ghost is raised to what is held, so that the same
+\* excess is reported once and not at every later step
+Resync(gr, log) ==
+    {<<r.u, IF r.slots + SumCost({a \in log.appts : a.u = r.u}) > GrantedOfRaw(gr, r.u)
+            THEN r.slots + SumCost({a \in log.appts : a.u = r.u}) ELSE GrantedOfRaw(gr, r.u)>> : r \in log.users}
+
 \* C07 (state form): nobody holds more than was granted.  gr = set of <<user, slots granted by registrations>>.
 GrantedOf(gr, u) == IF \E x \in gr : x[1] = u THEN (CHOOSE x \in gr : x[1] = u)[2] ELSE 0
 ConservationTags(gr, log) ==
@@ -107,9 +115,29 @@ CacheTags(p, wc, ri) ==
 
 \* abort handling: returns <<tags, compare?>>
 AbortTags(expAbort, logAbort, prop) ==
-    IF logAbort # ""
+    IF logAbort = "crash" THEN {}    \* a simulated crash (C03), judged by CrashTags
+    ELSE IF logAbort # ""
     THEN T("C11", "abort:" \o logAbort)    \* the specification has no aborting step: every panic of the code is a C11 matter
     ELSE IF expAbort = "norpc" THEN T(prop, "conf.node_not_asked") ELSE {}
+
+\* C03: the durable state a crash leaves behind lies between the state before the interrupted action and the state the
+\* completed action would have produced (row by row: nothing both states hold is lost, nothing neither state holds
+\* appears), has no dangling rows and grants no slots.  ek: the key of the request in flight (its own rows may be in a
+\* transient state: stored, not yet dropped), <<0, 0>> if none.
+ProjT(S) == {IF t.conf THEN t ELSE [t EXCEPT !.h = 0] : t \in S}
+Between(P, X, L) == (P \cap X) \subseteq L /\ L \subseteq (P \cup X)
+NotKey(S, ek) == {r \in S : Key(r) # ek}
+CrashTags(logAbort, pre, x, log, ek, gr) ==
+    IF logAbort # "crash" THEN {}
+    ELSE (IF ~Between(pre.users, x.users, log.users) THEN T("C03", "crash.users") ELSE {})
+         \cup (IF ~Between(NotKey(pre.appts, ek), NotKey(x.appts, ek), NotKey(log.appts, ek)) THEN T("C03", "crash.appointments") ELSE {})
+         \cup (IF ~Between(ProjT(NotKey(pre.trackers, ek)), ProjT(NotKey(x.trackers, ek)), ProjT(NotKey(log.trackers, ek)))
+               THEN T("C03", "crash.trackers") ELSE {})
+         \cup (IF \E a \in log.appts : Key(a) = ek /\ a.u # ek[1] THEN T("C03", "crash.appointments") ELSE {})
+         \cup (IF ~NoDangling(log) THEN T("C03", "crash.dangling") ELSE {})
+         \cup (IF log.lastKnown \notin {pre.lastKnown, x.lastKnown} THEN T("C03", "crash.last_known") ELSE {})
+         \cup (IF \E r \in log.users : r.slots + SumCost({a \in log.appts : a.u = r.u}) > GrantedOf(gr, r.u)
+               THEN T("C03", "crash.grants_slots") ELSE {})
 
 \* compare the post-state only when neither side aborted
 Comparable(expAbort, logAbort) == logAbort = "" /\ expAbort \in {"", "norpc"}
@@ -129,16 +157,18 @@ StepBoot ==
           /\ g' = [g EXCEPT !.seen = @ \cup allkeys, !.nodeHas = @ \cup allkeys, !.chain = {blocks[i] : i \in 1..n},
                             !.tower_id = IF @ = "" THEN Ev.tower_id ELSE @]
           /\ tags' = tags
-                \cup Lift(C07_Copies(log))
+                \cup (IF Ev.abort = "" THEN Lift(C07_Copies(log)) ELSE {})
                 \cup (IF ~NoDangling(log) THEN T("C03", "dangling") ELSE {})
-                \cup (IF log.gkH # Ev.tipH \/ log.wH # Ev.tipH THEN T("C03", "boot.height") ELSE {})
-                \cup (IF log.reorged # {} \/ log.memo # {} THEN T("C03", "boot.volatile") ELSE {})
-                \cup (IF Ev.abort # "" THEN T("C03", "boot.abort:" \o Ev.abort) ELSE {})
+                \cup (IF Ev.abort = "" /\ (log.gkH # Ev.tipH \/ log.wH # Ev.tipH) THEN T("C03", "boot.height") ELSE {})
+                \cup (IF Ev.abort = "" /\ (log.reorged # {} \/ log.memo # {}) THEN T("C03", "boot.volatile") ELSE {})
+                \cup (IF Ev.abort \notin {"", "crash"} THEN T("C03", "boot.abort:" \o Ev.abort) ELSE {})
+                \cup (IF \E r \in log.users : r.slots + SumCost({a \in log.appts : a.u = r.u}) > GrantedOf(g.granted, r.u)
+                      THEN T("C03", "boot.grants_slots") ELSE {})
                 \cup (IF "dead" \notin DOMAIN st /\ (st.users # log.users \/ st.appts # log.appts \/ st.trackers # log.trackers
-                                                   \/ st.lastKnown # log.lastKnown)
+                                                   \/ (st.lastKnown # log.lastKnown /\ st.lastKnown # 0))
                       THEN T("C03", "restart.changed_durable_state") ELSE {})
                 \cup (IF g.tower_id # "" /\ Ev.abort = "" /\ Ev.tower_id # g.tower_id THEN T("C03", "restart.tower_id") ELSE {})
-                \cup CacheTags(Ev.post, wc, blocks)
+                \cup (IF Ev.abort = "" THEN CacheTags(Ev.post, wc, blocks) ELSE {})
           /\ alive' = (Ev.abort = "")
 
 StepRegister ==
@@ -146,14 +176,16 @@ StepRegister ==
     /\ LET exp == RegisterF(st, Ev.u)
            log == Logged(Ev.post, st.wCache, st.rIndex)
            E == [act |-> "Register", who |-> Ev.u, reply |-> Ev.reply, sends |-> {}, orc |-> OrcOf(<<>>)]
-           gr2 == IF Ev.abort = "" /\ Ev.reply.code = "ok"
+           durable == HasUser(log.users, Ev.u) /\ (~HasUser(st.users, Ev.u) \/ UserOf(log.users, Ev.u) # UserOf(st.users, Ev.u))
+           gr2 == IF (Ev.abort = "" /\ Ev.reply.code = "ok") \/ (Ev.abort = "crash" /\ durable)
                   THEN {x \in g.granted : x[1] # Ev.u} \cup {<<Ev.u, (IF HasUser(st.users, Ev.u) THEN GrantedOf(g.granted, Ev.u) ELSE 0) + SUB_S>>}
                   ELSE g.granted
        IN /\ st' = log
-          /\ g' = [g EXCEPT !.granted = gr2]
+          /\ g' = [g EXCEPT !.granted = Resync(gr2, log)]
           /\ tags' = tags
                 \cup ConservationTags(gr2, log)
                 \cup AbortTags(exp.abort, Ev.abort, "C07")
+                \cup CrashTags(Ev.abort, st, exp.st, log, <<0, 0>>, gr2)
                 \cup (IF Comparable(exp.abort, Ev.abort)
                       THEN Conf([exp EXCEPT !.st.users = log.users, !.st.gk = log.gk], log, {}, "C07", "C06", "C06", "C02", "C02")
                            \cup (IF {<<r.u, r.slots>> : r \in exp.st.users} # {<<r.u, r.slots>> : r \in log.users} THEN T("C07", "conf.users") ELSE {})
@@ -176,7 +208,8 @@ StepAdd ==
            exp == AddAppointmentF(st, Ev.who, a, orc)
            log == Logged(Ev.post, st.wCache, st.rIndex)
            E == [act |-> "Add", who |-> Ev.who, a |-> a, reply |-> Ev.reply, sends |-> sends, orc |-> orc]
-           g2 == [g EXCEPT !.nodeHas = @ \cup {tx \in 0..MAXTX : orc[tx] \in {"ok", "mem", "res"}},
+           g2 == [g EXCEPT !.granted = Resync(@, log),
+                           !.nodeHas = @ \cup {tx \in 0..MAXTX : orc[tx] \in {"ok", "mem", "res"}},
                            !.lastAcc = IF Ev.abort = "" /\ Ev.reply.code = "ok" /\ HasKey(log.appts, <<Ev.who, Ev.l>>)
                                           /\ RowOf(log.appts, <<Ev.who, Ev.l>>).ver = Ev.ver
                                        THEN {x \in @ : x.k # <<Ev.who, Ev.l>>} \cup
@@ -187,6 +220,7 @@ StepAdd ==
           /\ tags' = tags
                 \cup ConservationTags(g.granted, log)
                 \cup AbortTags(exp.abort, Ev.abort, "C01")
+                \cup CrashTags(Ev.abort, st, exp.st, log, <<Ev.who, Ev.l>>, g.granted)
                 \cup (IF Comparable(exp.abort, Ev.abort)
                       THEN Conf(exp, log, sends, "C07", "C01", "C01", "C01", "C02")
                            \cup ReplyCodeTags(exp.reply.code, Ev.reply.code)
@@ -246,6 +280,7 @@ StepGkConnect ==
           /\ g' = [g EXCEPT !.granted = {x \in @ : HasUser(log.users, x[1])}]
           /\ tags' = tags
                 \cup AbortTags("", Ev.abort, "C09")
+                \cup CrashTags(Ev.abort, st, exp.st, log, <<0, 0>>, g.granted)
                 \cup (IF Ev.abort = "" THEN Conf(exp, log, SendsOf(Ev.rpc), "C09", "C09", "C09", "C02", "C02")
                                             \cup Lift(C09_GkConnect(st, E, log) \cup C07_Copies(log) \cup C07_Frozen(st, log)) ELSE {})
           /\ alive' = (alive /\ Ev.abort = "")
@@ -265,6 +300,7 @@ StepWConnect ==
           /\ g' = g2
           /\ tags' = tags
                 \cup AbortTags(exp.abort, Ev.abort, "C01")
+                \cup CrashTags(Ev.abort, st, exp.st, log, <<0, 0>>, g.granted)
                 \cup (IF Comparable(exp.abort, Ev.abort)
                       THEN Conf(exp, log, sends, "C07", "C01", "C01", "C01", "C02")
                            \cup Lift(C01_WConnect(st, E, log) \cup C02_Sends(st, E, log, g) \cup C02_Status(st, E, log, g2)
@@ -289,6 +325,7 @@ StepRConnect ==
           /\ tags' = tags
                 \cup ConservationTags(g.granted, log)
                 \cup AbortTags(exp.abort, Ev.abort, "C04")
+                \cup CrashTags(Ev.abort, st, exp.st, log, <<0, 0>>, g.granted)
                 \cup (IF Comparable(exp.abort, Ev.abort)
                       THEN Conf(exp, log, sends, "C07", "C04", "C04", "C04", "C02")
                            \cup Lift(C04_RConnect(st, E, log, g2) \cup C02_Sends(st, E, log, g) \cup C07_Copies(log))
@@ -309,6 +346,7 @@ StepDisc ==
           /\ g' = IF Ev.act = "GkDisc" THEN [g EXCEPT !.chain = {b \in @ : b.h < blk.h}] ELSE g
           /\ tags' = tags
                 \cup AbortTags("", Ev.abort, "C04")
+                \cup CrashTags(Ev.abort, st, exp.st, log, <<0, 0>>, g.granted)
                 \cup (IF Ev.abort = "" THEN Conf(exp, log, SendsOf(Ev.rpc), "C07", "C04", "C04", "C02", "C02")
                                             \cup Lift(C07_Frozen(st, log))
                                             \cup (IF Ev.act = "GkDisc" THEN Lift(C09_Disc(st, E, log)) ELSE {})
@@ -329,6 +367,7 @@ StepPollEnd ==
           /\ g' = g
           /\ tags' = tags
                 \cup AbortTags("", Ev.abort, "C12")
+                \cup CrashTags(Ev.abort, st, exp.st, log, <<0, 0>>, g.granted)
                 \cup (IF Ev.abort = "" THEN Conf(exp, log, {}, "C07", "C03", "C03", "C02", "C02")
                                             \cup (IF Ev.synced THEN Lift(C04_Synced(log, g)) ELSE {}) ELSE {})
           /\ alive' = (alive /\ Ev.abort = "")
@@ -339,6 +378,19 @@ StepNote ==
     /\ UNCHANGED <<st, tags>>
     /\ g' = g
     /\ alive' = (alive /\ Ev.act # "Crash")
+
+\* C03: after a crash in the middle of chain processing, restart and catch-up, the durable state equals the one of the
+\* uninterrupted run of the same history (heights of unconfirmed trackers aside).
+StepRefFinal ==
+    /\ Ev.act = "RefFinal"
+    /\ LET m == Ev.mine
+           r == Ev.reference
+       IN tags' = tags
+            \cup (IF UsersOf(m.users) # UsersOf(r.users) THEN T("C03", "catchup.users") ELSE {})
+            \cup (IF ApptsOf(m.appts) # ApptsOf(r.appts) THEN T("C03", "catchup.appointments") ELSE {})
+            \cup (IF ProjT(TrackersOf(m.trackers)) # ProjT(TrackersOf(r.trackers)) THEN T("C03", "catchup.trackers") ELSE {})
+            \cup (IF m.lastKnownH # r.lastKnownH THEN T("C03", "catchup.last_known") ELSE {})
+    /\ UNCHANGED <<st, g, alive>>
 
 StepInit ==
     /\ Ev.act = "Init"
@@ -356,7 +408,7 @@ Next ==
     /\ l <= Len(Rec)
     /\ l' = l + 1
     /\ \/ StepInit \/ StepBoot \/ StepRegister \/ StepAdd \/ StepGet \/ StepSub
-       \/ StepGkConnect \/ StepWConnect \/ StepRConnect \/ StepDisc \/ StepPollEnd \/ StepNote \/ StepEnd
+       \/ StepGkConnect \/ StepWConnect \/ StepRConnect \/ StepDisc \/ StepPollEnd \/ StepNote \/ StepRefFinal \/ StepEnd
 
 Spec == Init /\ [][Next]_vars
 =============================================================================
